@@ -67,6 +67,13 @@ type Rogue13 struct {
 	// RequestClientCert: the (honest) reference server sends a CertificateRequest; the client's
 	// Certificate, CertificateVerify and Finished are then checked against the reference formulas
 	RequestClientCert bool
+	// Retry: the reference server first answers with a HelloRetryRequest that carries a cookie
+	// (RFC 8446 4.1.4 / RFC 9147 5.1) and continues with the second ClientHello; the transcript
+	// then starts with the synthetic message_hash of the first ClientHello (RFC 8446 4.4.1)
+	Retry     bool
+	retrySent bool
+	hrrPrefix []byte // message_hash(ClientHello1) || HelloRetryRequest, in transcript form
+	seqOff    int    // 1 once a HelloRetryRequest has used message_seq 0 / record number 0
 	// Verdict of the reference server on the client's final flight ("" = nothing wrong so far)
 	ClientFlightBad string
 	ClientFinOK     bool
@@ -112,7 +119,25 @@ func (r *Rogue13) OnClientDatagram(em *Emission) {
 		if len(chs) == 0 {
 			return
 		}
-		if err := r.answerHello(chs[len(chs)-1]); err != nil {
+		ch := chs[len(chs)-1]
+		if r.Retry && !r.retrySent {
+			if err := r.sendRetry(ch); err != nil {
+				r.Note = err.Error()
+			}
+
+			return
+		}
+		if r.Retry {
+			if ch.MsgSeq == 0 {
+				return // the first ClientHello again; the second has not arrived yet
+			}
+			if hello, err := ParseClientHello(ch.Body); err != nil || !hasCookie13(hello, rogueCookie) {
+				r.Note = "second ClientHello does not echo the cookie of the HelloRetryRequest"
+
+				return
+			}
+		}
+		if err := r.answerHello(ch); err != nil {
 			r.Note = err.Error()
 		}
 
@@ -251,7 +276,7 @@ func (r *Rogue13) answerHello(ch *HsMsg) error {
 
 	h := r.suite.h
 	zeros := make([]byte, r.suite.hlen)
-	r.transcript = append(canonical13(1, ch.Body), canonical13(2, sh)...)
+	r.transcript = append(append(append([]byte(nil), r.hrrPrefix...), canonical13(1, ch.Body)...), canonical13(2, sh)...)
 	early := hkdfExtract(h, zeros, zeros)
 	d1 := ExpandLabel13(h, early, "derived", hashOf(h), r.suite.hlen)
 	r.hsSecret = hkdfExtract(h, d1, shared)
@@ -305,20 +330,20 @@ func (r *Rogue13) answerHello(ch *HsMsg) error {
 	r.expMaster = ExpandLabel13(h, master, "exp master", th2, r.suite.hlen)
 
 	keys, _ := NewKeys13(r.suite.id, r.sHS)
-	d0 := plaintextRecord(22, 0, dtlsHs(2, 0, sh))
-	d1rec := keys.Seal13(2, 0, nil, 22, dtlsHs(8, 1, ee), 0)
+	d0 := plaintextRecord(22, uint64(r.seqOff), dtlsHs(2, r.seqOff, sh))
+	d1rec := keys.Seal13(2, 0, nil, 22, dtlsHs(8, 1+r.seqOff, ee), 0)
 	var d2rec []byte
 	if certReq != nil && cert != nil && certVerify != nil {
-		d2rec = append(keys.Seal13(2, 1, nil, 22, dtlsHs(13, 2, certReq), 0), keys.Seal13(2, 2, nil, 22, dtlsHs(11, 3, cert), 0)...)
-		d2rec = append(d2rec, keys.Seal13(2, 3, nil, 22, dtlsHs(15, 4, certVerify), 0)...)
-		d2rec = append(d2rec, keys.Seal13(2, 4, nil, 22, dtlsHs(20, 5, fin), 0)...)
+		d2rec = append(keys.Seal13(2, 1, nil, 22, dtlsHs(13, 2+r.seqOff, certReq), 0), keys.Seal13(2, 2, nil, 22, dtlsHs(11, 3+r.seqOff, cert), 0)...)
+		d2rec = append(d2rec, keys.Seal13(2, 3, nil, 22, dtlsHs(15, 4+r.seqOff, certVerify), 0)...)
+		d2rec = append(d2rec, keys.Seal13(2, 4, nil, 22, dtlsHs(20, 5+r.seqOff, fin), 0)...)
 	} else if cert != nil && certVerify != nil {
-		d2rec = append(keys.Seal13(2, 1, nil, 22, dtlsHs(11, 2, cert), 0), keys.Seal13(2, 2, nil, 22, dtlsHs(15, 3, certVerify), 0)...)
-		d2rec = append(d2rec, keys.Seal13(2, 3, nil, 22, dtlsHs(20, 4, fin), 0)...)
+		d2rec = append(keys.Seal13(2, 1, nil, 22, dtlsHs(11, 2+r.seqOff, cert), 0), keys.Seal13(2, 2, nil, 22, dtlsHs(15, 3+r.seqOff, certVerify), 0)...)
+		d2rec = append(d2rec, keys.Seal13(2, 3, nil, 22, dtlsHs(20, 4+r.seqOff, fin), 0)...)
 	} else if cert != nil {
-		d2rec = append(keys.Seal13(2, 1, nil, 22, dtlsHs(11, 2, cert), 0), keys.Seal13(2, 2, nil, 22, dtlsHs(20, 3, fin), 0)...)
+		d2rec = append(keys.Seal13(2, 1, nil, 22, dtlsHs(11, 2+r.seqOff, cert), 0), keys.Seal13(2, 2, nil, 22, dtlsHs(20, 3+r.seqOff, fin), 0)...)
 	} else {
-		d2rec = keys.Seal13(2, 1, nil, 22, dtlsHs(20, 2, fin), 0)
+		d2rec = keys.Seal13(2, 1, nil, 22, dtlsHs(20, 2+r.seqOff, fin), 0)
 	}
 	r.flight = [][]byte{d0, append(d1rec, d2rec...)}
 	r.sentFlight = true
@@ -436,4 +461,49 @@ func (r *Rogue13) Exporter(label string, n int) []byte {
 	empty := hashOf(h)
 
 	return ExpandLabel13(h, ExpandLabel13(h, r.expMaster, label, empty, r.suite.hlen), "exporter", empty, n)
+}
+
+var rogueCookie = []byte("refdtls-cookie-0123456789abcdef")
+
+func hasCookie13(h *Hello, cookie []byte) bool {
+	b, ok := h.Ext(ExtCookie13)
+
+	return ok && len(b) >= 2 && bytes.Equal(b[2:], cookie)
+}
+
+// sendRetry answers the first ClientHello with a HelloRetryRequest: a ServerHello whose random is
+// SHA-256("HelloRetryRequest"), with supported_versions and a cookie.
+func (r *Rogue13) sendRetry(ch *HsMsg) error {
+	hello, err := ParseClientHello(ch.Body)
+	if err != nil {
+		return err
+	}
+	var ok bool
+	for _, id := range hello.Suites {
+		if r.suite, ok = suites13ref[id]; ok {
+			break
+		}
+	}
+	if !ok {
+		return fmt.Errorf("rogue13: no DTLS 1.3 suite offered")
+	}
+	hrr := []byte{0xfe, 0xfd}
+	hrr = append(hrr, hrrRandom...)
+	hrr = append(hrr, byte(len(hello.SessionID)))
+	hrr = append(hrr, hello.SessionID...)
+	hrr = append(hrr, byte(r.suite.id>>8), byte(r.suite.id), 0)
+	exts := []byte{0, 43, 0, 2, 0xfe, 0xfc}
+	exts = append(exts, 0, byte(ExtCookie13), byte((2+len(rogueCookie))>>8), byte(2+len(rogueCookie)), byte(len(rogueCookie)>>8), byte(len(rogueCookie)))
+	exts = append(exts, rogueCookie...)
+	hrr = append(hrr, byte(len(exts)>>8), byte(len(exts)))
+	hrr = append(hrr, exts...)
+	// RFC 8446 4.4.1: ClientHello1 is replaced by message_hash || 00 00 Hash.length || Hash(ClientHello1)
+	h1 := hashOf(r.suite.h, canonical13(1, ch.Body))
+	r.hrrPrefix = append([]byte{254, 0, 0, byte(len(h1))}, h1...)
+	r.hrrPrefix = append(r.hrrPrefix, canonical13(2, hrr)...)
+	r.retrySent, r.seqOff = true, 1
+	r.N.Inject(time.Millisecond, r.Self, r.Peer, plaintextRecord(22, 0, dtlsHs(2, 0, hrr)))
+	r.S.Fault("refdtls-hello-retry-request")
+
+	return nil
 }
